@@ -142,6 +142,37 @@ Definition init_frame (s : st) (f : fr) (ty : N) (src dst sb msg apx nonce3 : li
   let cur_len := match f_buf f with
                  | Some b => match lookup b (heap s) with Some bb => cap bb | None => O end
                  | None => O end in
+  (* fix D22: a frame that fits no pooled buffer is refused, the struct keeps its old buffer *)
+  if Nat.ltb cur_len required && (match tier_of required with None => true | Some _ => false end) then Err 9 else
+  let '(s1, ob) :=
+    if Nat.ltb cur_len required then
+      let '(s', nb) := get_slice s required bc in
+      let s'' := match f_buf f with Some old => return_slice s' old | None => s' end in
+      (s'', nb)
+    else (s, f_buf f) in
+  match ob with
+  | None => Panic                                   (* nil pooled slice: index out of range *)
+  | Some b =>
+    match lookup b (heap s1) with
+    | None => Panic
+    | Some bb =>
+      match build ty src dst sb msg apx nonce3 with
+      | Ok (d, ix) =>
+        let s2 := set_buf s1 b (buf_write bb off d) in
+        Ok (s2, mkFr (Some b) off (length d) ix src dst 0)
+      | Err e => Err e
+      | Panic => Panic
+      end
+    end
+  end.
+
+(* initFrame before fix D22: a size beyond the largest tier yields a nil pooled slice, which is then sliced *)
+Definition init_frame_pinned (s : st) (f : fr) (ty : N) (src dst sb msg apx nonce3 : list N) (off ovh : nat) (bc : option nat)
+  : res (st * fr) :=
+  let required := (off + 51 + length sb + length msg + auth_of ty + length apx + ovh)%nat in
+  let cur_len := match f_buf f with
+                 | Some b => match lookup b (heap s) with Some bb => cap bb | None => O end
+                 | None => O end in
   let '(s1, ob) :=
     if Nat.ltb cur_len required then
       let '(s', nb) := get_slice s required bc in
